@@ -44,6 +44,61 @@ fn multi_field_directive(source: &str) -> bool {
     }
 }
 
+/// A program of the same shape: same length, same identifiers, same spans - only the content
+/// of hex literals, decimal numbers and string literals differs.  Building it first on the same
+/// thread is the history under which any state kept between builds (a cache keyed by names or
+/// positions, an interner, a counter) shows up.
+pub fn sibling(t: &mut Tape, source: &str) -> String {
+    let b: Vec<char> = source.chars().collect();
+    let mut out = String::with_capacity(source.len());
+    let mut i = 0;
+    let ident = |c: char| c.is_alphanumeric() || c == '_';
+    while i < b.len() {
+        let c = b[i];
+        if c == '0' && i + 1 < b.len() && b[i + 1] == 'x' && (i == 0 || !ident(b[i - 1])) {
+            out.push('0');
+            out.push('x');
+            i += 2;
+            while i < b.len() && b[i].is_ascii_hexdigit() {
+                if t.chance(1, 2) {
+                    out.push(std::char::from_digit(t.draw(16) as u32, 16).unwrap());
+                } else {
+                    out.push(b[i]);
+                }
+                i += 1;
+            }
+        } else if c == '"' {
+            out.push(c);
+            i += 1;
+            while i < b.len() && b[i] != '"' {
+                if b[i].is_ascii_alphabetic() && t.chance(1, 3) {
+                    out.push((b'a' + t.draw(26) as u8) as char);
+                } else {
+                    out.push(b[i]);
+                }
+                i += 1;
+            }
+        } else if c.is_ascii_digit() && (i == 0 || !ident(b[i - 1])) {
+            // a decimal number: keep its length and a non-zero leading digit
+            let mut first = true;
+            while i < b.len() && b[i].is_ascii_digit() {
+                if t.chance(1, 3) {
+                    let lo = if first { 1 } else { 0 };
+                    out.push(std::char::from_digit(lo + t.draw(10 - lo as u64) as u32, 10).unwrap());
+                } else {
+                    out.push(b[i]);
+                }
+                first = false;
+                i += 1;
+            }
+        } else {
+            out.push(c);
+            i += 1;
+        }
+    }
+    out
+}
+
 pub const TX3C: &str = "/verif/sim/target-tx3c/release/tx3c";
 pub const SHIM: &str = "/verif/sim/target/getrandom_shim.so";
 
@@ -178,6 +233,65 @@ pub fn world_c18(tier: Tier, world_no: u64, mut t: Tape) -> WorldReport {
                     break;
                 }
             }
+        }
+    }
+    // ---- L3: histories of *other* builds on the same thread.  One to three programs of the same
+    // shape (and, half of the time, an unrelated example) are built first; the program itself must
+    // then encode exactly as on a fresh thread.
+    if let Some(Ok(first)) = outs.first() {
+        let nsib = 1 + t.index(3);
+        let mut history: Vec<String> = (0..nsib).map(|_| sibling(&mut t, &source)).collect();
+        if !examples.is_empty() && t.chance(1, 2) {
+            let k = t.index(examples.len());
+            history.push(examples[k].1.clone());
+        }
+        let hseed = seeds[1 % seeds.len()];
+        let src = source.clone();
+        let hist = history.clone();
+        let after = crate::entropy::in_world(hseed, move || {
+            guarded(|| {
+                let mut accepted = 0u32;
+                for h in &hist {
+                    // a sibling the front end rejects (or even panics on) is a history all the same
+                    if let Ok(Ok(_)) = guarded(|| encode_all(h)) {
+                        accepted += 1;
+                    }
+                }
+                (encode_all(&src), accepted)
+            })
+        });
+        rep.evaluations += 1;
+        rep.fire("build-history");
+        match after {
+            Ok((Ok(again), accepted)) => {
+                if accepted > 0 {
+                    rep.probe("history-of-accepted-siblings");
+                }
+                if &again != first {
+                    let which = again.iter().find(|(k, v)| first.get(*k) != Some(*v)).map(|(k, _)| k.clone()).unwrap_or_default();
+                    rep.violate(
+                        "C18",
+                        "L3-history",
+                        "after-same-shape-programs",
+                        format!(
+                            "`{name}`: tx `{which}` encodes to different TIR bytes when {} other program(s) of the same shape were built first on the same thread than on a fresh thread",
+                            history.len()
+                        ),
+                    );
+                }
+            }
+            Ok((Err(e), _)) => rep.violate(
+                "C18",
+                "L3-history",
+                "after-same-shape-programs/fails",
+                format!("`{name}`: the front end accepts the program on a fresh thread but rejects it after other programs were built on the same thread: {e}"),
+            ),
+            Err(p) => rep.violate(
+                "C18",
+                "L3-history",
+                "after-same-shape-programs/panics",
+                format!("`{name}`: building the program after other programs on the same thread panicked: {}", p.message),
+            ),
         }
     }
     let distinct_l1: std::collections::BTreeSet<Vec<u8>> = outs
